@@ -272,15 +272,37 @@ Lemma wrapped_ok tag n s : wf s = true -> forallb is_ascii tag = true -> List.le
   exists r, wrapped_b tag n s = Ok r /\ forall x, r = Some x -> piece s x.
 Proof. intros Hw Ha Hn Hc Hp. apply (wrapped_spec tag n "<" s); auto. discriminate. Qed.
 
-Lemma comma0_nth : forall s d p, comma0 d s = Some p -> nth_error s p = Some ",".
-Proof. induction s as [|b s IH]; intros d p H; [discriminate|]. cbn [comma0] in H.
-  destruct (Ascii.eqb b "<").
-  { destruct (comma0 (d + 1) s) as [q|] eqn:E; [|discriminate]. injection H as <-. simpl. eapply IH; eauto. }
-  destruct (Ascii.eqb b ">").
-  { destruct (comma0 (d - 1) s) as [q|] eqn:E; [|discriminate]. injection H as <-. simpl. eapply IH; eauto. }
+Lemma comma_top_nth : forall s d p, comma_top d s = Some p -> nth_error s p = Some ",".
+Proof. induction s as [|b s IH]; intros d p H; [discriminate|]. cbn [comma_top] in H.
+  destruct (opens b).
+  { destruct (comma_top (d + 1) s) as [q|] eqn:E; [|discriminate]. injection H as <-. simpl. eapply IH; eauto. }
+  destruct (closes b).
+  { destruct (comma_top (d - 1) s) as [q|] eqn:E; [|discriminate]. injection H as <-. simpl. eapply IH; eauto. }
   destruct (Ascii.eqb b "," && (d =? 0)%Z) eqn:Ec.
   { injection H as <-. apply andb_true_iff in Ec as [Ec _]. apply Ascii.eqb_eq in Ec. subst. reflexivity. }
-  destruct (comma0 d s) as [q|] eqn:E; [|discriminate]. injection H as <-. simpl. eapply IH; eauto. Qed.
+  destruct (comma_top d s) as [q|] eqn:E; [|discriminate]. injection H as <-. simpl. eapply IH; eauto. Qed.
+Lemma top_comma_nth s p : find_top_level_comma s = Some p -> nth_error s p = Some ",".
+Proof. apply comma_top_nth. Qed.
+
+(* split_top_level: both slices of every round are on boundaries (the comma is ASCII), the loop ends
+   within length+1 rounds, and the parts are well-formed pieces *)
+Lemma split_top_spec : forall fuel rest, wf rest = true -> List.length rest < fuel ->
+  exists parts, split_top_go fuel rest = Ok parts /\
+    Forall (fun p => wf p = true /\ List.length p <= List.length rest) parts.
+Proof. induction fuel as [|f IH]; intros rest Hw Hf; [lia|]. cbn [split_top_go].
+  destruct (find_top_level_comma rest) as [pos|] eqn:E.
+  - pose proof (top_comma_nth _ _ E) as N. pose proof (nth_error_lt _ _ _ N) as Hl.
+    rewrite (slice_to_at _ _ _ N eq_refl). cbn [bind].
+    replace (pos + 1) with (S pos) by lia. rewrite (slice_from_after _ _ _ Hw N eq_refl). cbn [bind].
+    destruct (IH (skipn (S pos) rest)) as (t & Et & Ht); [apply wf_skipn, Hw|rewrite skipn_length; lia|].
+    rewrite Et. cbn [bind]. eexists; split; [reflexivity|]. constructor.
+    + split; [apply wf_firstn, Hw|rewrite firstn_length; lia].
+    + pose proof (skipn_length (S pos) rest) as Hsl.
+      eapply Forall_impl; [|exact Ht]. cbv beta. intros p [H1 H2]. split; auto. lia.
+  - eexists; split; [reflexivity|]. constructor; [split; [exact Hw|lia]|constructor]. Qed.
+Lemma split_top_level_spec s : wf s = true ->
+  exists parts, split_top_level_b s = Ok parts /\ Forall (fun p => wf p = true /\ List.length p <= List.length s) parts.
+Proof. intros Hw. apply split_top_spec; auto. Qed.
 
 Lemma piece_trim s x : piece s x -> piece s (trim x).
 Proof. intros [H1 H2]. split; [apply wf_trim, H1|]. pose proof (len_trim x). lia. Qed.
@@ -291,8 +313,8 @@ Proof. intros [H1 H2] H. split; auto. lia. Qed.
 Lemma two_params_spec inner : wf inner = true ->
   exists r, two_params_b inner = Ok r /\
     forall k v, r = Some (k, v) -> (wf k = true /\ List.length k <= List.length inner) /\ (wf v = true /\ List.length v <= List.length inner).
-Proof. intros Hw. unfold two_params_b. destruct (comma0 0 inner) as [p|] eqn:E; [|eexists; split; [reflexivity|discriminate]].
-  pose proof (comma0_nth _ _ _ E) as N.
+Proof. intros Hw. unfold two_params_b. destruct (find_top_level_comma inner) as [p|] eqn:E; [|eexists; split; [reflexivity|discriminate]].
+  pose proof (top_comma_nth _ _ E) as N.
   rewrite (slice_to_at _ _ _ N eq_refl). cbn [bind].
   replace (p + 1) with (S p) by lia. rewrite (slice_from_after _ _ _ Hw N eq_refl). cbn [bind].
   assert (Hk : wf (trim (firstn p inner)) = true /\ List.length (trim (firstn p inner)) <= List.length inner).
@@ -306,8 +328,8 @@ Lemma result_ok_spec s : wf s = true -> exists r, result_ok_b s = Ok r /\ forall
 Proof. intros Hw. unfold result_ok_b.
   destruct (wrapped_ok (L "Result<") 7 s Hw eq_refl eq_refl eq_refl ltac:(lia)) as (r & E & Hr). rewrite E. cbn [bind].
   destruct r as [inner|]; [|eexists; split; [reflexivity|discriminate]]. destruct (Hr inner eq_refl) as [Hwi Hli].
-  destruct (find_char "," inner) as [c|] eqn:Ec.
-  - pose proof (find_char_nth _ _ _ Ec) as N. rewrite (slice_to_at _ _ _ N eq_refl). cbn [bind].
+  destruct (find_top_level_comma inner) as [c|] eqn:Ec.
+  - pose proof (top_comma_nth _ _ Ec) as N. rewrite (slice_to_at _ _ _ N eq_refl). cbn [bind].
     eexists; split; [reflexivity|]. intros x H. injection H as <-. split; [apply wf_trim, wf_firstn, Hwi|].
     pose proof (len_trim (firstn c inner)). rewrite firstn_length in *. lia.
   - eexists; split; [reflexivity|]. intros x H. injection H as <-. split; auto. Qed.
@@ -354,8 +376,9 @@ Proof. intros Hw. unfold tuple_b.
   assert (Hwi : wf inner = true) by (apply wf_firstn, wf_skipn, Hw).
   assert (Hli : List.length inner < List.length s) by (unfold inner; rewrite firstn_length, skipn_length; lia).
   destruct (trim inner); [eexists; split; [reflexivity|]; intros parts H; injection H as <-; constructor|].
+  destruct (split_top_level_spec inner Hwi) as (ps & -> & Hps). cbn [bind].
   eexists; split; [reflexivity|]. intros parts H. injection H as <-.
-  apply Forall_map. eapply Forall_impl; [|apply (split_pieces "," inner Hwi)]. simpl. intros p [H1 H2].
+  apply Forall_map. eapply Forall_impl; [|exact Hps]. simpl. intros p [H1 H2].
   apply piece_trim. split; auto. lia. Qed.
 
 Lemma mapM_safe {A B} (f : A -> outcome B) l : Forall (fun x => safe (f x)) l -> safe (mapM_b f l).
@@ -407,8 +430,8 @@ Proof. unfold strip_wrapped, strip_prefix, strip_suffix. destruct (starts tag s)
 
 Lemma pair_safe (f : str -> outcome (list str)) s inner : piece s inner ->
   (forall x, piece s x -> safe (f x)) -> safe (pair_b f inner).
-Proof. intros [Hw Hl] Hf. unfold pair_b. destruct (find_char "," inner) as [c|] eqn:E; [|exact I].
-  pose proof (find_char_nth _ _ _ E) as N. rewrite (slice_to_at _ _ _ N eq_refl). cbn [bind].
+Proof. intros [Hw Hl] Hf. unfold pair_b. destruct (find_top_level_comma inner) as [c|] eqn:E; [|exact I].
+  pose proof (top_comma_nth _ _ E) as N. rewrite (slice_to_at _ _ _ N eq_refl). cbn [bind].
   replace (c + 1) with (S c) by lia. rewrite (slice_from_after _ _ _ Hw N eq_refl). cbn [bind].
   apply safe_bind.
   { apply Hf, piece_trim. split; [apply wf_firstn, Hw|]. rewrite firstn_length. lia. }
@@ -417,7 +440,7 @@ Proof. intros [Hw Hl] Hf. unfold pair_b. destruct (find_char "," inner) as [c|] 
 
 Lemma result_names_safe (f : str -> outcome (list str)) s inner : piece s inner ->
   (forall x, piece s x -> safe (f x)) -> safe (result_names_b f inner).
-Proof. intros Hp Hf. unfold result_names_b. destruct (find_char "," inner); [eapply pair_safe; eauto|apply Hf, Hp]. Qed.
+Proof. intros Hp Hf. unfold result_names_b. destruct (find_top_level_comma inner); [eapply pair_safe; eauto|apply Hf, Hp]. Qed.
 
 Lemma trim_amps_skipn : forall s, exists k, trim_amps s = skipn k s /\ (starts (L "&") s = true -> 1 <= k).
 Proof. induction s as [|b s IH]; [exists 0; split; [reflexivity|discriminate]|]. cbn [trim_amps].
@@ -457,8 +480,9 @@ Proof. induction fuel as [|f IH]; intros s0 Hw0 Hf; [lia|]. cbn [names_go].
         set (inner := firstn (List.length s - 1 - 1) (skipn 1 s)).
         assert (Hwi : wf inner = true) by (apply wf_firstn, wf_skipn, Hw).
         assert (Hli : List.length inner < List.length s) by (unfold inner; rewrite firstn_length, skipn_length; lia).
+        destruct (split_top_level_spec inner Hwi) as (ps & -> & Hps). cbn [bind].
         apply safe_bind; [|intros; exact I]. apply mapM_safe.
-        eapply Forall_impl; [|apply (split_pieces "," inner Hwi)]. simpl. intros p [H1 H2].
+        eapply Forall_impl; [|exact Hps]. simpl. intros p [H1 H2].
         apply REC, piece_trim. split; auto. lia. }
       destruct (starts (L "&") s) eqn:Ea; [apply AMP; reflexivity|]. destruct (leaf_is_name s); exact I. }
     destruct (starts (L "&") s) eqn:Ea; [apply AMP; reflexivity|]. destruct (leaf_is_name s); exact I. }
@@ -476,7 +500,10 @@ Proof. unfold ends_with. intros H. apply starts_len in H. rewrite !rev_length in
 Theorem prefix_total : forall fuel t, List.length t < fuel -> safe (prefix_go fuel t).
 Proof. induction fuel as [|f IH]; intros t Hf; [lia|]. cbn [prefix_go].
   destruct (one_of t _); [exact I|].
-  destruct (strip_suffix (L "[]") t) as [base|]; [destruct (one_of base _); exact I|].
+  destruct (strip_suffix (L "[]") t) as [base|] eqn:Es.
+  { apply safe_bind; [|intros; exact I]. apply IH. unfold strip_suffix in Es.
+    destruct (ends_with (L "[]") t) eqn:Ee; [|discriminate]. injection Es as <-.
+    pose proof (ends_with_len _ _ Ee) as Hl. change (List.length (L "[]")) with 2 in *. rewrite firstn_length. lia. }
   destruct (starts (L "Record<") t || starts (L "Map<") t); [exact I|].
   assert (SUF : forall p, 0 < List.length p -> ends_with p t = true ->
             forall (k : str -> outcome str), (forall r, safe (k r)) ->
